@@ -436,17 +436,17 @@ SUBCHECKS = [
              tolerances={"standard_atomic_weight_rel": REL_WEIGHT, "mass_number_abs": MASSNO_SLACK}),
     SubCheck("lookup_unknown", check_unknown, strategy=unknown_names(), quick=400, thorough=20000,
              rule="non-symbol tokens, perturbed element names, glued symbols, historic names; must raise"),
-    SubCheck("mass", check_mass, strategy=G.formulas(max_depth=4, max_terms=6), quick=3000, thorough=100000,
+    SubCheck("mass", check_mass, strategy=G.formulas(max_depth=4, max_terms=6), quick=3000, thorough=150000,
              rule="G1 formulas, depth<=4, <=6 terms per level",
              tolerances={"float_sum_rel_to_sum_abs_terms": float(REL_SUM), "electron_mass_u": [float(ME_LO), float(ME_HI)]}),
-    SubCheck("mass_deep", check_mass, strategy=G.formulas(max_depth=8, max_terms=10, max_hydrates=3), quick=300, thorough=15000,
+    SubCheck("mass_deep", check_mass, strategy=G.formulas(max_depth=8, max_terms=10, max_hydrates=3), quick=300, thorough=20000,
              rule="G1 formulas, depth<=8, <=10 terms per level, <=3 hydrate parts",
              tolerances={"float_sum_rel_to_sum_abs_terms": float(REL_SUM), "electron_mass_u": [float(ME_LO), float(ME_HI)]}),
-    SubCheck("metamorphic", check_metamorphic, strategy=metamorphic_cases(), quick=600, thorough=20000,
+    SubCheck("metamorphic", check_metamorphic, strategy=metamorphic_cases(), quick=600, thorough=30000,
              rule="A (neutral, <=3 parts), B (neutral single part): mass(A..nB)=mass(A)+n mass(B); mass((A)k)=k mass(A); "
                   "mass(A^z)-mass(A)=-z m_e for two charges z1, z2 with one constant",
              tolerances={"float_sum_rel_to_sum_abs_terms": float(REL_SUM), "electron_mass_u": [float(ME_LO), float(ME_HI)]}),
-    SubCheck("fractions", check_fractions, strategy=mixtures(), quick=600, thorough=20000,
+    SubCheck("fractions", check_fractions, strategy=mixtures(), quick=600, thorough=30000,
              rule="1-6 distinct G1 formulas, coefficients int 1..1e6 / positive floats / set (unit multiplicity)",
              tolerances={"sum_to_one_abs": 1e-12, "proportional_rel": 1e-12}),
 ]
